@@ -43,6 +43,21 @@ theorem flow_lawful (tm : Int) : Lawful (flowMod tm) where
   res_norm r := by simp only [flowMod, flowNorm]; split_ifs <;> rfl
   pub_norm h := by simp [flowMod] at h
 
+/-- a reused flow controller is bound to a rule equal, on every recorded field, to the one just handed over -/
+theorem flowIsEqualsTo_iff (a b : FlowRule) : flowIsEqualsTo a b = true ↔ a = b := by
+  cases a; cases b
+  simp only [flowIsEqualsTo, Bool.and_eq_true, beq_iff_eq, FlowRule.mk.injEq]
+  tauto
+
+/-- a reused hotspot controller is bound to a rule that prints like the one just handed over -/
+theorem hotEquals_canon (a b : HotRule) (h : hotEquals a b = true) : hotCanon a = hotCanon b := by
+  cases a; cases b
+  simp only [hotEquals, Bool.and_eq_true, beq_iff_eq] at h
+  simp only [hotCanon, HotRule.mk.injEq]
+  obtain ⟨⟨⟨⟨⟨⟨⟨⟨⟨h1, h2⟩, h3⟩, h4⟩, h5⟩, h6⟩, h7⟩, h8⟩, h9⟩, h10⟩ := h
+  subst h1 h2 h3 h4 h5 h6 h7 h8 h9
+  split_ifs at h10 ⊢ <;> simp_all
+
 theorem iso_lawful : Lawful isoMod where
   norm_idem _ := rfl
   valid_norm _ h := h
@@ -308,16 +323,11 @@ end
 
 /-! ### outlier and system -/
 
-/-- a history in which the per-resource path never refused a rule -/
-def NoRefusal : List OOp → Prop
-  | [] => True
-  | .loadAll _ :: ops => NoRefusal ops
-  | .loadRes res rule :: ops => (res = "" ∨ ∀ r, rule = some r → outCheck r = .ok) ∧ NoRefusal ops
-
-structure OInv (s : OState) (L : String → Option OutRule) : Prop where
-  cache : ∀ k, s.cache k = L k
-  enf : ∀ k, s.enf k = outAccept (L k)
-  keys : ∀ k, k ∉ s.keys → L k = none
+/-- outlier: what holds of every reachable state (`all`), and what holds of the untainted resources -/
+structure OInv (s : OState) (L : String → Option OutRule) (T : List String) : Prop where
+  all : ∀ k, s.enf k = outAccept (s.cache k)
+  keys : ∀ k, k ∉ s.keys → s.cache k = none
+  good : ∀ k, k ∉ T → s.cache k = L k
 
 theorem outProj_none_of_not_mem (k : String) (rules : List (Option OutRule)) (h : k ∉ outKeys rules) : outProj k rules = none := by
   unfold outProj
@@ -329,81 +339,112 @@ theorem outProj_none_of_not_mem (k : String) (rules : List (Option OutRule)) (h 
   simp only [outKeys, List.mem_map, List.mem_filter]
   exact ⟨r, ⟨hr, hi⟩, e⟩
 
-theorem oinv_step {s : OState} {L : String → Option OutRule} (hI : OInv s L) (op : OOp) (hop : NoRefusal [op]) :
-    OInv (stepOut s op).1 (latestOutStep L op) := by
+theorem loadResOut_refused {s : OState} {res : String} {r : OutRule} (h0 : res ≠ "") (h2 : s.cache res ≠ some r)
+    (hr : outCheck r ≠ .ok) : loadResOut s res (some r) = (s, .changedErr) := by
+  unfold loadResOut outResBody
+  simp only [h0, if_false]
+  have : (s.cache res == some r) = false := by simpa using h2
+  simp only [this]
+  cases h : outCheck r with
+  | panics => rfl
+  | invalid => rfl
+  | ok => exact absurd h hr
+
+theorem loadResOut_ok {s : OState} {res : String} {r : OutRule} (h0 : res ≠ "") (h2 : s.cache res ≠ some r)
+    (hr : outCheck r = .ok) :
+    loadResOut s res (some r) =
+      (OState.mk (res :: s.keys) (upd s.cache res (some r)) (upd s.enf res (some r)), .changed) := by
+  unfold loadResOut outResBody
+  have : (s.cache res == some r) = false := by simpa using h2
+  simp [h0, this, hr]
+
+theorem loadResOut_same {s : OState} {res : String} {r : OutRule} (h0 : res ≠ "") (h2 : s.cache res = some r) :
+    loadResOut s res (some r) = (s, .unchanged) := by
+  unfold loadResOut
+  simp [h0, h2]
+
+theorem loadResOut_nil {s : OState} {res : String} (h0 : res ≠ "") :
+    loadResOut s res none = ({ s with cache := upd s.cache res none, enf := upd s.enf res none }, .changed) := by
+  unfold loadResOut
+  simp [h0]
+
+theorem oinv_step {s : OState} {L : String → Option OutRule} {T : List String} (hI : OInv s L T) (op : OOp) :
+    OInv (stepOut s op).1 (latestOutStep L op) (taintStep T op) := by
   cases op with
   | loadAll rules =>
-    simp only [stepOut, loadAllOut, latestOutStep]
+    simp only [stepOut, loadAllOut, latestOutStep, taintStep]
     split_ifs with h
     · have hc : ∀ k, s.cache k = outProj k rules := by
         intro k
         by_cases hk : k ∈ s.keys ++ outKeys rules
         · simpa using List.all_eq_true.mp h k hk
         · simp only [List.mem_append, not_or] at hk
-          rw [hI.cache k, hI.keys k hk.1, outProj_none_of_not_mem k rules hk.2]
-      refine ⟨fun k => ?_, fun k => ?_, fun k hk => ?_⟩
-      · exact hc k
-      · show s.enf k = _
-        rw [hI.enf k, ← hI.cache k, hc k]
-      · show outProj k rules = none
-        rw [← hc k, hI.cache k, hI.keys k hk]
-    · exact ⟨fun _ => rfl, fun _ => rfl, fun k hk => outProj_none_of_not_mem k rules hk⟩
+          rw [hI.keys k hk.1, outProj_none_of_not_mem k rules hk.2]
+      exact ⟨hI.all, hI.keys, fun k _ => hc k⟩
+    · exact ⟨fun _ => rfl, fun k hk => outProj_none_of_not_mem k rules hk, fun _ _ => rfl⟩
   | loadRes res rule =>
-    simp only [NoRefusal, and_true] at hop
-    simp only [stepOut, loadResOut, latestOutStep]
-    split_ifs with h0
-    · exact hI
-    · have hop' : ∀ r, rule = some r → outCheck r = .ok := by
-        rcases hop with h | h
-        · exact absurd h h0
-        · exact h
-      cases rule with
-      | none =>
-        refine ⟨fun k => ?_, fun k => ?_, fun k hk => ?_⟩
-        all_goals by_cases hk' : k = res
-        · subst hk'; simp [upd_same]
-        · simp only [upd_other _ _ hk']; exact hI.cache k
-        · subst hk'; simp [upd_same, outAccept]
-        · simp only [upd_other _ _ hk']; exact hI.enf k
-        · subst hk'; simp [upd_same]
-        · simp only [upd_other _ _ hk']; exact hI.keys k hk
-      | some r =>
-        have hok := hop' r rfl
-        dsimp only
-        split_ifs with h2
-        · have hc : s.cache res = some r := by simpa using h2
-          refine ⟨fun k => ?_, fun k => ?_, fun k hk => ?_⟩
+    simp only [stepOut, latestOutStep, taintStep]
+    by_cases h0 : res = ""
+    · subst h0
+      have : loadResOut s "" rule = (s, .err) := by unfold loadResOut; simp
+      rw [this]; simpa using hI
+    simp only [h0, if_false]
+    cases rule with
+    | none =>
+      rw [loadResOut_nil h0]
+      have hT : outRefused none = false := rfl
+      simp only [hT]
+      refine ⟨fun k => ?_, fun k hk => ?_, fun k hk => ?_⟩
+      all_goals by_cases hk' : k = res
+      · subst hk'; simp [upd_same, outAccept]
+      · simp only [upd_other _ _ hk']; exact hI.all k
+      · subst hk'; simp [upd_same]
+      · simp only [upd_other _ _ hk']; exact hI.keys k hk
+      · subst hk'; simp [upd_same]
+      · simp only [upd_other _ _ hk']
+        exact hI.good k (fun hm => hk (by simp [List.mem_filter, hm, hk']))
+    | some r =>
+      by_cases h2 : s.cache res = some r
+      · rw [loadResOut_same h0 h2]
+        refine ⟨hI.all, hI.keys, fun k hk => ?_⟩
+        by_cases hk' : k = res
+        · subst hk'; rw [upd_same]; exact h2
+        · rw [upd_other _ _ hk']
+          apply hI.good k
+          intro hm; apply hk
+          by_cases hr : outRefused (some r) = true
+          · simp [hr, hm]
+          · simp [hr, List.mem_filter, hm, hk']
+      · by_cases hr : outCheck r = .ok
+        · rw [loadResOut_ok h0 h2 hr]
+          have hT : outRefused (some r) = false := by simp [outRefused, hr]
+          simp only [hT]
+          refine ⟨fun k => ?_, fun k hk => ?_, fun k hk => ?_⟩
           all_goals by_cases hk' : k = res
-          · subst hk'; rw [upd_same]; exact hc
-          · rw [upd_other _ _ hk']; exact hI.cache k
-          · subst hk'; rw [upd_same, hI.enf k, ← hI.cache k, hc]
-          · rw [upd_other _ _ hk']; exact hI.enf k
-          · subst hk'; have := hI.keys k hk; rw [← hI.cache k, hc] at this; exact absurd this (by simp)
-          · rw [upd_other _ _ hk']; exact hI.keys k hk
-        · simp only [outResBody, hok]
-          refine ⟨fun k => ?_, fun k => ?_, fun k hk => ?_⟩
-          all_goals by_cases hk' : k = res
-          · subst hk'; simp [upd_same]
-          · simp only [upd_other _ _ hk']; exact hI.cache k
-          · subst hk'; simp [upd_same, outAccept, Option.filter, hok]
-          · simp only [upd_other _ _ hk']; exact hI.enf k
+          · subst hk'; simp [upd_same, outAccept, Option.filter, hr]
+          · simp only [upd_other _ _ hk']; exact hI.all k
           · subst hk'; simp at hk
           · simp only [upd_other _ _ hk']
             exact hI.keys k (fun hm => hk (List.mem_cons_of_mem _ hm))
+          · subst hk'; simp [upd_same]
+          · simp only [upd_other _ _ hk']
+            exact hI.good k (fun hm => hk (by simp [List.mem_filter, hm, hk']))
+        · rw [loadResOut_refused h0 h2 hr]
+          have hT : outRefused (some r) = true := by simp [outRefused, hr]
+          simp only [hT, if_true]
+          refine ⟨hI.all, hI.keys, fun k hk => ?_⟩
+          simp only [List.mem_cons, not_or] at hk
+          rw [upd_other _ _ hk.1]
+          exact hI.good k hk.2
 
-theorem noRefusal_cons (op : OOp) (ops : List OOp) : NoRefusal (op :: ops) ↔ NoRefusal [op] ∧ NoRefusal ops := by
-  cases op <;> simp [NoRefusal]
-
-theorem oinv_foldl (ops : List OOp) (h : NoRefusal ops) {s : OState} {L : String → Option OutRule} (hI : OInv s L) :
-    OInv (ops.foldl (fun s op => (stepOut s op).1) s) (ops.foldl latestOutStep L) := by
-  induction ops generalizing s L with
+theorem oinv_foldl (ops : List OOp) {s : OState} {L : String → Option OutRule} {T : List String} (hI : OInv s L T) :
+    OInv (ops.foldl (fun s op => (stepOut s op).1) s) (ops.foldl latestOutStep L) (ops.foldl taintStep T) := by
+  induction ops generalizing s L T with
   | nil => exact hI
-  | cons op ops ih =>
-    rw [noRefusal_cons] at h
-    exact ih h.2 (oinv_step hI op h.1)
+  | cons op ops ih => exact ih (oinv_step hI op)
 
-theorem oinv_run (ops : List OOp) (h : NoRefusal ops) : OInv (runOut ops) (latestOut ops) :=
-  oinv_foldl ops h ⟨fun _ => rfl, fun _ => rfl, fun _ _ => rfl⟩
+theorem oinv_run (ops : List OOp) : OInv (runOut ops) (latestOut ops) (taintOut ops) :=
+  oinv_foldl ops ⟨fun _ => rfl, fun _ _ => rfl, fun _ _ => rfl⟩
 
 structure SInv (s : SysState) (last : List (Option SysRule)) : Prop where
   cache : s.cache = last
